@@ -180,7 +180,7 @@ CHECKS = {
 # layers added after the per-property texts above were written (appended to text / technique)
 ADDED = {
  "C01": ("; portable AEGIS-128L/256 code (generic *_common.h + table-based software AES round) modelled statement by statement and proved equal to the AEGIS specification for every length (Properties/C01Aegis.lean)",
-         " The portable AEGIS code is modelled in the C's structure (state update, absorb / enc / dec / declast loops, mac, wrappers, the strided constant-time T-table AES round) and proved equal to Spec AEGIS for every key, nonce, AD and message length, with the round trip; the driver runs AEGIS through this model; the AES-NI instantiation of the same generic code is compared through the correspondence."),
+         " The portable AEGIS code is modelled in the C's structure (state update, absorb / enc / dec / declast loops, mac, wrappers, the strided constant-time T-table AES round) and proved equal to Spec AEGIS for every key, nonce, AD and message length, with the round trip; the driver runs AEGIS through this model; the AES-NI instantiation of the same generic code (AESENC defined through the FIPS 197 round and validated against the CPU on every run) is proved equal to the specification and to the portable build (C01AegisAesni)."),
  "C02": ("; AEGIS decrypt verdict / failure-output theorems over the C-structured model",
          " For AEGIS the decision logic is proved over the C-structured model: rc = 0 iff the specification accepts, on failure the output is zeroed or untouched, inputs shorter than the tag rejected."),
  "C03": ("; reference cores and the VECTORISED ChaCha20 code (dolbeau u0/u1/u4/u8 over a transcribed SSE/AVX2 intrinsic semantics) proved equal to the reference model, hence to RFC 8439, for every key, nonce, 64-bit counter and length",
